@@ -113,6 +113,7 @@ pub mod token {
             //@ ensures frame: final(self).limits == old(self).limits && final(self).world.iterations >= old(self).world.iterations
             //@ ensures time: r is Ok ==> final(self).execution_time == Some(r->Ok_0) && r->Ok_0.nanos <= crate::time::MAX_NANOS / 2
             //@ ensures limit_error: r is Err ==> r->Err_0 is RunLimit || r->Err_0 is Execution
+            //@ ensures error_not_cached: r is Err ==> final(self).execution_time == old(self).execution_time
             //@end
             //@extract biscuit-auth/src/token/authorizer.rs :: impl Authorizer :: fn authorize
             //@ requires sane: old(self).sane()
@@ -163,5 +164,6 @@ pub mod lspec {
 //@canary run-not-cached :: token::authorizer::Authorizer::run :: Some(execution_time) => Ok(execution_time), ==>> Some(execution_time) => { self.world.iterations = 0; Ok(execution_time) }
 //@canary query-timeout-not-checked :: token::authorizer::Authorizer::query :: if execution_time >= limits.max_time { ==>> if false {
 //@canary query-all-remaining-underflow :: token::authorizer::Authorizer::query_all :: .checked_sub(self.world.iterations) ==>> .checked_sub(0).map(|m| m - self.world.iterations)
+//@canary run-error-cached :: token::authorizer::Authorizer::run :: self.world\n                    .run_with_limits(&self.symbols, self.limits.clone())?; ==>> let verif_res = self.world.run_with_limits(&self.symbols, self.limits.clone()); self.execution_time = Some(start.elapsed()); verif_res?;
 //@canary-requires datalog::World::run_with_limits
 //@canary-requires token::authorizer::Authorizer::authorize
